@@ -141,6 +141,19 @@ fn build_doc(rng: &mut Rng, corpus: &Corpus) -> String {
         let sep = *rng.pick(&[". ", ".\n\n"]);
         return format!("{a}{sep}{b}.");
     }
+    if rng.chance(1, 10) {
+        // twins whose only difference lies far into a long neighbouring token (a URL into the same repository, a
+        // very long word): same flagged word, same message, different surroundings
+        let prefix = *rng.pick(&["https://github.com/automattic/harper/blob/master/harper-core/src/linting/", "https://example.org/a/very/long/path/that/goes/on/and/on/and/on/for/ever/and/ever/"]);
+        let (t1, t2) = *rng.pick(&[("an_a.rs", "spaces.rs"), ("x", "y"), ("one/two", "one/three")]);
+        let long: String = "abcdefghij".repeat(7);
+        let (fl, tail) = *rng.pick(&[("fo", "details"), ("tset", "here"), ("teh", "rest")]);
+        return match rng.below(3) {
+            0 => format!("See {prefix}{t1} {fl} {tail}. See {prefix}{t2} {fl} {tail}."),
+            1 => format!("We saw {long}x {fl} {tail}. We saw {long}y {fl} {tail}."),
+            _ => format!("The {fl} {prefix}{t1} link. The {fl} {prefix}{t2} link."),
+        };
+    }
     let pool = flagged_pool();
     let n = rng.range(2, 6);
     let mut s = String::new();
